@@ -32,6 +32,7 @@ COMP = ch.IOComponent(
     has_arg=lambda m: m == "put",
     gen_arg=lambda cfg, m, rng, tr: rng.randrange(1, 1 << cfg["w"]),
     gen_in=gen_in, module=__name__, has_ghost=True,
+    shadow=lambda cfg: ["get"] if cfg["kind"] == "in" else ["put"],
     in_phase=lambda cfg, rng: {"p": rng.choice([0.0, 0.2, 0.5, 0.5, 0.8, 1.0])},
 )
 
